@@ -16,6 +16,10 @@ prepared = z3.Function("prepared", Val, Val, Val, Val)          # prepare_attr_v
 prepared_raises = z3.Function("prepared_raises", Val, Val, Val, B)
 
 
+for _s in ("MISSING", "EMPTY", "UNCHANGED", "SENTINEL"):
+    CLS.add(_s, ("object",))
+
+
 def fld(st, obj, name):
     return z3.Select(st.get("idict", a_of(obj)), STR.sid(name))
 
@@ -49,7 +53,9 @@ def wf_attr(st, a):
                   is_bool(fld(st, a, "init")), is_bool(fld(st, a, "compare")), is_bool(fld(st, a, "repr")),
                   z3.Not(is_absent(fld(st, a, "default"))), z3.Not(is_absent(fld(st, a, "default_factory"))),
                   z3.Not(is_absent(fld(st, a, "prepare"))), z3.Not(is_absent(fld(st, a, "prepare_item"))),
-                  z3.Not(is_absent(fld(st, a, "owner"))))
+                  z3.Not(is_absent(fld(st, a, "owner"))),
+                  # the sentinels EMPTY / UNCHANGED are call-protocol markers, never declared defaults
+                  fld(st, a, "default") != CLS.val("EMPTY"), fld(st, a, "default") != CLS.val("UNCHANGED"))
 
 
 def wf_meta(st, m):
@@ -80,7 +86,9 @@ def managed(eng, st, obj, name):
 def assume_meta_shape(eng, st, obj):
     """A-META for one object: its metadata, if any, is a well-formed (truthy) SpecClassMetadata record"""
     m = meta_of(eng, st, obj)
-    st.assume(z3.Implies(z3.And(z3.Not(is_absent(m)), z3.Not(is_none(m))), z3.And(*wf_meta(st, m))))
+    present = z3.And(z3.Not(is_absent(m)), z3.Not(is_none(m)))
+    for g in wf_meta(st, m):
+        st.assume(z3.Implies(present, g))        # one by one: the ground conjuncts stay usable for path pruning
     st.assume(z3.Or(is_absent(m), is_none(m), is_ref(m)))
     from pyvc.vals import utruthy
     st.assume(z3.Implies(is_ref(m), utruthy(a_of(m))))
